@@ -41,7 +41,7 @@ inline Params params_quick()
 }
 inline Params params_thorough()
 {
-  Params p = {4, 3, 7, 10, 2, 8};
+  Params p = {4, 3, 5, 10, 2, 8};
   return p;
 }
 inline Params params_max()
@@ -188,7 +188,7 @@ struct Gen
     if (!on)
       return;
     brk(depth);
-    doc += COMMENTS[pattern < 4 ? 0 : 1];  // patterns 4..6: the same masks with the second text
+    doc += COMMENTS[pattern < 4 ? 0 : 1];  // pattern 4: every slot, second comment text
   }
   void emit_props(const PropSet &ps, int depth, RNode &n)
   {
